@@ -290,7 +290,11 @@ impl<T: UciTx, H: Heuristic, M: MoveOrder> Search<T, H, M> {
 
         self.state.metrics.increment_duration(&self.state.elapsed());
 
-        (best_move.and_then(|vm| vm.mv).map(move_into_uci_move), self.state.ponder_move().map(move_into_uci_move))
+        let best_uci_move = best_move.and_then(|vm| vm.mv).map(move_into_uci_move);
+        // without a move from this search the stored principal variation belongs to an earlier one
+        let ponder_uci_move = if best_uci_move.is_some() { self.state.ponder_move().map(move_into_uci_move) } else { None };
+
+        (best_uci_move, ponder_uci_move)
     }
 
     fn evaluate(&self, color: ColorBits, zobrist_pawn_hash: ZobristHash, legal_moves_remaining: bool) -> i32 {
